@@ -43,8 +43,13 @@ def oracle_cases(ctx, flags_list, relation, n_corpus, n_mut, origins=None, n_ins
     # the first `n_hand` extra programs are the hand-written ones of the property module: they get five cases (two when
     # several flag vectors are run) of 14 instances each; generator programs and programs handed over by a correspondence get one case of 14 instances
     given = {}
+    fixed_inp = {}
     for i, text in enumerate(extra_programs):
-        if isinstance(text, (tuple, list)):   # (program, [instances that must be among those tried])
+        if isinstance(text, dict):            # {"program":…, "inp": [[name, arity]…], "instances": […]}: declared inputs are part of the case
+            fixed_inp[text["program"]] = [list(x) for x in text["inp"]]
+            given[text["program"]] = list(text.get("instances", []))
+            text = text["program"]
+        elif isinstance(text, (tuple, list)):   # (program, [instances that must be among those tried])
             text, insts = text[0], list(text[1])
             given[text] = insts
         chosen.append(("hand" if n_hand is None or i < n_hand else "extra", text))
@@ -53,7 +58,7 @@ def oracle_cases(ctx, flags_list, relation, n_corpus, n_mut, origins=None, n_ins
             # the hand-written and targeted programs get more instances: two cases with 14 instances each
             for _ in range((5 if len(flags_list) == 1 else 2) if origin == "hand" else 1):
                 k += 1
-                cases.append(dict(program=text, inp=pick(inp, k), outp=pick(outp, k), flags=flags, relation=relation,
+                cases.append(dict(program=text, inp=fixed_inp.get(text) or pick(inp, k), outp=pick(outp, k), flags=flags, relation=relation,
                                   seed=ctx.seed * 1000003 + k, n_inst=(14 if origin in ("extra", "hand") else n_inst), facts_over=facts_over,
                                   label=f"corpus:{origin}", one_to_one=one_to_one, extra_instances=given.get(text, [])))
     pool = pref or H
